@@ -3,7 +3,7 @@
    in Z, hours/minutes/seconds arbitrary rationals (so integer identities are
    exact).  TimeZone (a subclass that hashes differently) is not a `dur`. *)
 From Coq Require Import QArith.
-From Iso Require Import Proofs.Tac Spec.Cal Model.Num Model.Helpers Model.Duration Proofs.DurSpec.
+From Iso Require Import Proofs.Tac Spec.Cal Model.Num Model.Helpers Model.Duration Proofs.DurSpec Proofs.TablesOk.
 Open Scope Z_scope.
 
 (* the value the property's "==" talks about *)
@@ -12,6 +12,13 @@ Definition dur_months (x : dur) : Z := match x with DW _ => 0 | DU _ m _ _ _ _ =
 (* a year counted as the mode's common-year length, a month as 30 days *)
 Definition rough_len (md : mode) (x : dur) : Q :=
   (inject_Z ((dur_years x * DAYS_IN_YEAR md + dur_months x * 30) * 86400) + dur_len x)%Q.
+
+(* the unit sizes the model is written with are the ones class Calendar declares on this run *)
+Theorem C11_constants :
+  gen.CalTables.SECONDS_IN_MINUTE = 60 /\ gen.CalTables.MINUTES_IN_HOUR = 60 /\ gen.CalTables.HOURS_IN_DAY = 24 /\
+  gen.CalTables.DAYS_IN_WEEK = 7 /\ gen.CalTables.ROUGH_DAYS_IN_MONTH = 30 /\ gen.CalTables.MAX_WEEKS_IN_YEAR = 53.
+Proof. exact Proofs.TablesOk.unit_constants_ok. Qed.
+Print Assumptions C11_constants.
 
 Theorem C11_units :
   (forall w, dur_len (DW w) == inject_Z (604800 * w))%Q /\
